@@ -9,6 +9,7 @@ def _threads(case):
 
 
 class PipeSpec(SeqSpec):
+    ctx_zoo = True      # contexts come from the zoo (cause / DeadlineExceeded / plain), see vlib.apply_ctx_zoo
     component = "pipe"
     imports = "From Juniper Require Import Common.Base Conc.GoLTS Conc.Pipe.\nFrom Juniper Require Conc.PipeMatcher."
     # a rejection counts only when certified genuine (PipeMatcher.pipe_reject_genuine: the closures converged within the fuel)
